@@ -27,7 +27,7 @@ _PAIR = ["identical", "copy", "copy-dtype", "bitflip", "endpoint", "solcell", "s
 THRESHOLDS = {"quick": {**{f"c09:pair:{p}": 50 for p in _PAIR}, "c09:hash:LatticeMaze": 100, "c09:hash:TargetedLatticeMaze": 100,
                         "c09:hash:SolvedMaze": 100, "c09:set-dedup": 100, "c09:dataset-eq": 30, "c09:ctor:in-range": 300,
                         "c09:ctor:negative": 300, "c09:ctor:too-large": 300, "c09:ctor:solved": 200, "c09:big-pairs": 40, "c09:dataset-eq-big": 40,
-                        "c09:travelled:hashed-first": 10, "c09:travelled:never-hashed": 10}}
+                        "c09:travelled:hashed-first": 10, "c09:travelled:never-hashed": 10, "c09:caller-arrays": 300}}
 THRESHOLDS["thorough"] = dict(THRESHOLDS["quick"])
 ANCHORS = ["maze_dataset.maze.lattice_maze:TargetedLatticeMaze.__post_init__",
            "maze_dataset.maze.lattice_maze:LatticeMaze.__hash__",
@@ -420,6 +420,40 @@ def _travel(ctx, n):
                 ctx.violation(f"C09/set-dedup-raises/{kind}/{type(e).__name__}", str(e)[:200], case)
 
 
+def _caller_arrays(ctx, cl, s, e, cells, rng, case):
+    """a maze is a value: what the caller later does to the arrays it passed in must not move the maze's start / end / solution
+    (the constructors copy them), so the maze keeps valid ends, stays equal to its equal copy and keeps its hash"""
+    from maze_dataset.maze.lattice_maze import SolvedMaze, TargetedLatticeMaze
+
+    R, C = cl.shape[1:]
+    sp, ep = np.array(s), np.array(e)
+    sol = np.array([s, *[cells[int(rng.integers(len(cells)))] for _ in range(int(rng.integers(0, 3)))], e])
+    try:
+        t = TargetedLatticeMaze(connection_list=cl.copy(), start_pos=sp, end_pos=ep)
+        t2 = TargetedLatticeMaze(connection_list=cl.copy(), start_pos=np.array(s), end_pos=np.array(e))
+        sm = SolvedMaze(connection_list=cl.copy(), solution=sol)
+        sm2 = SolvedMaze(connection_list=cl.copy(), solution=sol.copy())
+        ht, hs = hash(t), hash(sm)
+    except Exception as ex:  # noqa: BLE001
+        ctx.violation(f"C09/construct/exception/{type(ex).__name__}", repr(ex)[:300], case)
+        return
+    sol_before = sol.copy()
+    # the caller re-uses its buffers (a moving cursor, an out-of-range scratch value)
+    sp[:] = (-1, R + 5); ep[:] = (R + 7, -3); sol[:] = -9
+    ctx.ev(); ctx.tally("c09:caller-arrays")
+    ok_t = tuple(int(x) for x in t.start_pos) == tuple(s) and tuple(int(x) for x in t.end_pos) == tuple(e)
+    ctx.check(ok_t, "C09/maze-changes-when-caller-mutates-its-arrays/TargetedLatticeMaze",
+              lambda: f"start/end were {s}/{e}, now {np.asarray(t.start_pos).tolist()}/{np.asarray(t.end_pos).tolist()} (grid {R}x{C})", case)
+    ok_s = np.array_equal(np.asarray(sm.solution), sol_before) and tuple(int(x) for x in sm.start_pos) == tuple(s) and tuple(int(x) for x in sm.end_pos) == tuple(e)
+    ctx.check(ok_s, "C09/maze-changes-when-caller-mutates-its-arrays/SolvedMaze",
+              lambda: f"solution was {sol_before.tolist()}, now {np.asarray(sm.solution).tolist()}; ends {np.asarray(sm.start_pos).tolist()}/{np.asarray(sm.end_pos).tolist()}", case)
+    try:
+        ctx.check((t == t2) is True and hash(t) == ht == hash(t2) and (sm == sm2) is True and hash(sm) == hs == hash(sm2),
+                  "C09/maze-changes-when-caller-mutates-its-arrays/equality-or-hash", "a maze stopped being equal to its equal copy / changed its hash", case)
+    except Exception as ex:  # noqa: BLE001
+        ctx.violation(f"C09/eq-raises/{type(ex).__name__}", repr(ex)[:200], case)
+
+
 def _ctors(ctx, n):
     from maze_dataset.maze.lattice_maze import SolvedMaze, TargetedLatticeMaze
 
@@ -460,6 +494,8 @@ def _ctors(ctx, n):
         except Exception as ex:  # noqa: BLE001
             raised = ex
         ctx.ev(); ctx.tally(f"c09:ctor:{cls_tag}")
+        if in_range and raised is None and i % 2 == 0:
+            _caller_arrays(ctx, cl, s, e, cells, rng, case)
         if in_range:
             ctx.check(raised is None, f"C09/ctor-rejects-in-range/{which}", f"{type(raised).__name__}: {raised}"[:300], case)
         else:
